@@ -132,7 +132,8 @@ inline Number parseNumber(const char* s) {
   }
 #endif
 
-  if (!isdigit(*s) && *s != '.')
+  // at least one digit is required, before or after the decimal point
+  if (!isdigit(*s) && !(*s == '.' && isdigit(s[1])))
     return Number();
 
   mantissa_t mantissa = 0;
@@ -194,6 +195,10 @@ inline Number parseNumber(const char* s) {
     } else if (*s == '+') {
       s++;
     }
+
+    // at least one digit is required in the exponent
+    if (!isdigit(*s))
+      return Number();
 
     // beyond this limit, the result is out of range whatever comes next
     const int exponent_limit =
